@@ -104,6 +104,8 @@ pub fn serve(raw: UnixStream, s: SrvCfg, acc_key: Vec<u8>, rawlog: Arc<Mutex<Vec
                         // the licence and the demand-active travel in separate writes (separate TLS records), as do the
                         // four finalization PDUs below: a client that waits on the socket between two reads finds each
                         let lf = refsrv::mcs_sdin(1003, &refsrv::license_valid(&p)); log.lic = lf[7..].to_vec();
+                        // the Client Info PDU has a reply (the licence): nothing may arrive before it is sent
+                        if log.ahead.is_none() { std::thread::sleep(Duration::from_millis(4)); if pending(rawfd) { log.ahead = Some(log.frames.len()); } }
                         if !write_all(&mut tls, &lf) { break; }
                         let da = refsrv::mcs_sdin(1003, &refsrv::demand_active(s.share, &s.source, &s.caps));
                         log.srv_msgs.push(da[7..].to_vec());
@@ -148,7 +150,7 @@ pub fn serve(raw: UnixStream, s: SrvCfg, acc_key: Vec<u8>, rawlog: Arc<Mutex<Vec
             }
         }
         // a request that has a reply: the client must be waiting for it, not writing ahead
-        let needs_reply = m[0] == 0x7f || matches!(m[0] >> 2, 10 | 14) || (m[0] >> 2 == 25 && sdrq == 1);
+        let needs_reply = m[0] == 0x7f || matches!(m[0] >> 2, 10 | 14);
         if needs_reply && log.ahead.is_none() {
             std::thread::sleep(Duration::from_millis(4));
             if pending(rawfd) { log.ahead = Some(log.frames.len()); }
@@ -178,6 +180,8 @@ pub struct Run { pub status: String, pub log: ConnLog, pub line: String, pub out
 /// switch, then restricted admin set to its final value; 2 = blank credentials on, restricted admin on, both set
 /// to their final values in the opposite order; 3 = every switch set twice (complement first)
 pub static BUILDER_HIST: std::sync::atomic::AtomicU8 = std::sync::atomic::AtomicU8::new(0);
+/// when >= 0: the client calls `shutdown` after that many reads (before the activation is complete); -1: after all
+pub static EARLY_READS: std::sync::atomic::AtomicI8 = std::sync::atomic::AtomicI8::new(-1);
 
 pub fn run_conn(c: &Cfg, s: &SrvCfg) -> Run {
     let nt_hash = md4(&utf16(&c.pw));
@@ -199,7 +203,8 @@ pub fn run_conn(c: &Cfg, s: &SrvCfg) -> Run {
         Some((a0, th0))
     };
     let (c2, inputs) = (c.clone(), s.inputs.clone());
-    let nreads = if s.reactivate.is_some() { 11 } else { 5 };
+    let early = EARLY_READS.load(std::sync::atomic::Ordering::Relaxed);
+    let nreads = if early >= 0 { early as usize } else if s.reactivate.is_some() { 11 } else { 5 };
     let res = catch_unwind(AssertUnwindSafe(move || -> Result<(), String> {
         let hist = BUILDER_HIST.load(std::sync::atomic::Ordering::Relaxed);
         let mut con = Connector::new().screen(c2.w, c2.h).credentials(c2.dom.clone(), c2.user.clone(), c2.pw.clone());
@@ -241,8 +246,8 @@ pub fn run_conn(c: &Cfg, s: &SrvCfg) -> Run {
     let first = log.frames.iter().find(|f| f.len() >= 12 && f[7] >> 2 == 14).map(|f| ((f[10] as u32) << 8) | f[11] as u32).unwrap_or(0);
     let srvmsgs: Vec<String> = log.srv_msgs.iter().map(|m| hex(m)).collect();
     let capsh: Vec<String> = s.caps.iter().map(|x| hex(x)).collect();
-    let line = format!("conn hist={} w={} h={} lay={} name={} dom8={} usr8={} pwd8={} hash={} ra={} blank={} auto={} nla={} ssel={} id={} uid={} ver={} licnew={} share={} source={} caps={} cflags={:08x} react={} reuse={} jrefuse={} ber={} inputs={} sel={} first={} srvmsgs={} ccr={} au={} cj1={} cj2={} lic={} key={} dom16={} usr16={} neg={} chal={} cc={} ek={} pw16={} ud16={} cp16={} cp8={} spk={} r2obs={}",
-        BUILDER_HIST.load(std::sync::atomic::Ordering::Relaxed), c.w, c.h, c.lay, hex(c.name.as_bytes()), hex(c.dom.as_bytes()), hex(c.user.as_bytes()), hex(c.pw.as_bytes()), c.hash as u8, c.ra as u8, c.blank as u8, c.auto as u8, c.nla as u8,
+    let line = format!("conn reads={} hist={} w={} h={} lay={} name={} dom8={} usr8={} pwd8={} hash={} ra={} blank={} auto={} nla={} ssel={} id={} uid={} ver={} licnew={} share={} source={} caps={} cflags={:08x} react={} reuse={} jrefuse={} ber={} inputs={} sel={} first={} srvmsgs={} ccr={} au={} cj1={} cj2={} lic={} key={} dom16={} usr16={} neg={} chal={} cc={} ek={} pw16={} ud16={} cp16={} cp8={} spk={} r2obs={}",
+        if early >= 0 { early.to_string() } else { "-".to_string() }, BUILDER_HIST.load(std::sync::atomic::Ordering::Relaxed), c.w, c.h, c.lay, hex(c.name.as_bytes()), hex(c.dom.as_bytes()), hex(c.user.as_bytes()), hex(c.pw.as_bytes()), c.hash as u8, c.ra as u8, c.blank as u8, c.auto as u8, c.nla as u8,
         s.sel, s.id, s.uid, s.version, s.license_new as u8, s.share, hex(&s.source), capsh.join(","), s.chal_flags, s.reactivate.map(|x| x.to_string()).unwrap_or("-".into()), s.reuse, s.jrefuse, s.ber, s.inputs.join(","),
         log.sel, first, srvmsgs.join(","), hex(&log.ccr), hex(&log.au), hex(log.cjc.get(0).unwrap_or(&vec![])), hex(log.cjc.get(1).unwrap_or(&vec![])), hex(&log.lic), hex(&key), hex(&utf16(&c.dom)), hex(&utf16(&c.user)), hex(&nego), hex(&log.chal), hex(&cc), hex(&log.k.clone().unwrap_or(vec![0; 16])),
         hex(&utf16(&c.pw)), hex(&utf16(&(c.user.to_uppercase() + &c.dom))), hex(&utf16(&client_pw)), hex(client_pw.as_bytes()), hex(&spk), r2obs);
@@ -335,7 +340,8 @@ pub fn sequence_violation(s: &SrvCfg, r: &Run) -> Option<String> {
     if let Some(k) = r.log.ahead { return Some(format!("the client wrote frame {} before the server had sent the reply the previous request depends on", k)); }
     let fr = &r.log.frames;
     let kind = |f: &Vec<u8>| -> u8 { if f.len() < 8 { 0 } else if f[7] == 0x7f { 0x7f } else { f[7] >> 2 } };
-    let n_act = if s.reactivate.is_some() { 2 } else { 1 };
+    let early = EARLY_READS.load(std::sync::atomic::Ordering::Relaxed);
+    let n_act = if early >= 0 { if early >= 1 { 1 } else { 0 } } else if s.reactivate.is_some() { 2 } else { 1 };
     let want_min = 6 + 5 * n_act + s.inputs.len() + 1;
     if fr.len() != want_min { return Some(format!("{} frames, expected {}", fr.len(), want_min)); }
     let head: Vec<u8> = fr[..6].iter().map(kind).collect();
@@ -389,8 +395,10 @@ pub fn run_case(toks: &[&str], em: &mut Emitter) {
     let s = SrvCfg { sel: get("ssel").parse().unwrap_or(0), id: get("id").parse().unwrap_or(1), uid: get("uid").parse().unwrap_or(1004), version: get("ver").parse().unwrap_or(0x80004), license_new: b("licnew"), share: get("share").parse().unwrap_or(0x103ea),
         caps, source: unhex(&get("source")), chal_flags: u32::from_str_radix(&get("cflags"), 16).unwrap_or(0), inputs: get("inputs").split(',').filter(|x| !x.is_empty()).map(|x| x.to_string()).collect(), script: vec![], reactivate: get("react").parse().ok(), reuse: get("reuse").parse().unwrap_or(0), jrefuse: get("jrefuse").parse().unwrap_or(0), ber: get("ber").parse().unwrap_or(0) };
     BUILDER_HIST.store(get("hist").parse().unwrap_or(0), std::sync::atomic::Ordering::Relaxed);
+    EARLY_READS.store(get("reads").parse().unwrap_or(-1), std::sync::atomic::Ordering::Relaxed);
     let _ = emit(em, &c, &s);
     BUILDER_HIST.store(0, std::sync::atomic::Ordering::Relaxed);
+    EARLY_READS.store(-1, std::sync::atomic::Ordering::Relaxed);
 }
 
 /// the replayable part of a `conn` line (configuration and server choices, nothing observed)
@@ -464,6 +472,18 @@ pub fn generate(prop: &str, thorough: bool, seed: u64, part: (usize, usize), em:
         }
     }
     if prop == "C17" { return; }
+    // shutdown before the activation is complete (right after connect, after the demand-active was answered, in
+    // the middle of the finalization): the disconnect provider ultimatum is sent all the same
+    if part.0 == 0 {
+        for (k, early) in [0i8, 1, 2, 4].iter().enumerate() {
+            let c = Cfg { w: 800, h: 600, lay: 0x409, name: "rdp-rs".into(), dom: "DOM".into(), user: "user".into(), pw: "pw".into(), hash: false, ra: false, blank: false, auto: false, nla: k % 2 == 1, check: false };
+            let s = SrvCfg { sel: 0, id: 1, uid: 1004 + k as u16, version: 0x80004, license_new: false, share: 0x103ea, caps: default_caps(), source: b"RDP\0".to_vec(), chal_flags: 0x62898235, inputs: vec![], script: vec![], reactivate: None, reuse: 0, jrefuse: 0, ber: 0 };
+            EARLY_READS.store(*early, std::sync::atomic::Ordering::Relaxed);
+            let run = emit(em, &c, &s);
+            EARLY_READS.store(-1, std::sync::atomic::Ordering::Relaxed);
+            if prop == "C04" { emit_strict(em, &run, &mut seen); }
+        }
+    }
     // C03 / C04: conforming-server parameter choices x configurations
     let n = if thorough { 1500 } else { 150 };
     for i in 0..n {
